@@ -191,6 +191,28 @@ theorem inv_step (c : Cfg) (htl : TlOk c.tl) (s : State) (op : Op)
         · exact h
         · repeat' split
           all_goals exact inv_bumped v h
+  | adopt v =>
+    cases kind <;> simp only [step] <;> first | exact h | skip
+    · cases v with
+      | none => exact trivial
+      | some v =>
+        simp only
+        split
+        · rename_i a hv
+          by_cases hx : isXr v = true
+          · rw [if_pos hx] at hv; exact inv_of_photon3 htl rfl hv
+          · rw [if_neg hx] at hv; exact inv_of_photon2 htl hv
+        · exact h
+    all_goals
+      cases v with
+      | none => exact h
+      | some v =>
+        simp only
+        split
+        · exact h
+        · split
+          · rename_i hv; exact inv_of_base htl hv
+          · exact h
   | empty =>
     cases kind <;> simp only [step] <;> first | exact trivial | skip
     exact ⟨rfl, Or.inl ⟨rfl, rfl⟩⟩
@@ -259,7 +281,7 @@ example :
 /-! ### rejected assignments -/
 
 /-- **An assignment that raises leaves the previous content untouched** (`.array =`,
-`.array_3d =`, `update`), in every state — no invariant needed. -/
+`.array_3d =`, `update`, `detector.<bucket> = other`), in every state — no invariant needed. -/
 theorem failed_assignment_leaves_state (c : Cfg) (s : State) (op : Op) (hop : isAssign op = true)
     (e : Err) (h : (step c s op).2 = .error e) : (step c s op).1 = s := by
   obtain ⟨tl, kind, rows, cols⟩ := c
@@ -281,6 +303,25 @@ theorem failed_assignment_leaves_state (c : Cfg) (s : State) (op : Op) (hop : is
         split
         · rename_i hv; simp [hv] at h
         · rfl
+  | adopt v =>
+    cases kind <;> simp only [step] at h ⊢ <;> first | rfl | skip
+    · cases v with
+      | none => simp at h
+      | some v =>
+        simp only at h ⊢
+        split
+        · rename_i hv; simp [hv] at h
+        · rfl
+    all_goals
+      cases v with
+      | none => rfl
+      | some v =>
+        simp only at h ⊢
+        split
+        · rfl
+        · split
+          · rename_i hv; simp_all
+          · rfl
   | iadd _ | empty | read | read3 | readDtype | readShape => simp [isAssign] at hop
 
 /-- a failed in-place addition also leaves the state untouched, in every state the invariant
@@ -380,20 +421,29 @@ theorem set3_ok_only_valid (c : Cfg) (htl : TlOk c.tl) (hk : c.kind = .photon) (
   · rename_i hv; simp [hv] at h
 
 /-- **Assigned photon counts are never negative**: after any successful assignment to a photon
-container (2-D, 3-D, or `+=` on an empty one, which goes through the setters) the stored content
+container (2-D, 3-D, `+=` on an empty one, or `detector.photon = other`, which all go through the
+setters) the stored content
 is one that has no negative entry (the caller's array if it had none, else its clipped copy). -/
 theorem photon_nonneg_after_assign (c : Cfg) (hk : c.kind = .photon) (s : State) (v : Operand)
-    (op : Op) (hop : op = .set v ∨ op = .set3 v ∨ (op = .iadd v ∧ s = none)) (o : Obs)
+    (op : Op) (hop : op = .set v ∨ op = .set3 v ∨ (op = .iadd v ∧ s = none) ∨ op = .adopt (some v))
+    (o : Obs)
     (h : (step c s op).2 = .ok o) :
     ∃ a, (step c s op).1 = some a ∧ a.content.noNeg = true := by
   obtain ⟨tl, kind, rows, cols⟩ := c
   cases hk
-  rcases hop with rfl | rfl | ⟨rfl, rfl⟩ <;> simp only [step] at h ⊢
+  rcases hop with rfl | rfl | ⟨rfl, rfl⟩ | rfl <;> simp only [step] at h ⊢
   · split
     · rename_i a hv; exact ⟨a, rfl, (validatePhoton2_ok hv).2.2.2.1⟩
     · rename_i hv; simp [hv] at h
   · split
     · rename_i a hv; exact ⟨a, rfl, (validatePhoton3_ok hv).2.2.2.1⟩
+    · rename_i hv; simp [hv] at h
+  · split
+    · rename_i a hv
+      refine ⟨a, rfl, ?_⟩
+      by_cases hx : isXr v = true
+      · rw [if_pos hx] at hv; exact (validatePhoton3_ok hv).2.2.2.1
+      · rw [if_neg hx] at hv; exact (validatePhoton2_ok hv).2.2.2.1
     · rename_i hv; simp [hv] at h
   · split
     · rename_i a hv
@@ -416,6 +466,16 @@ example :
     let c : Cfg := ⟨tableOf PyxelModel.Generated.C13.typeLists, .photon, 3, 4⟩
     ¬ Inv c.kind c.rows c.cols (some (⟨false, [5, 5], .int64, .input 0 false⟩ : Arr Content)) ∧
     step c none (.iadd (.nd true [5, 5] .int64 false 0)) = (none, .error .valueError) := by
+  refine ⟨?_, by rfl⟩
+  rw [← invB_iff]; decide
+
+/-- counter-witness for the code before the repair C13-detector-photon-setter
+(`self.photon._array = obj._array`): adopting the 5×5 array of another detector's photon bucket
+breaks the invariant of a 3×4 detector; the repaired `step` rejects it and keeps the content. -/
+example :
+    let c : Cfg := ⟨tableOf PyxelModel.Generated.C13.typeLists, .photon, 3, 4⟩
+    ¬ Inv c.kind c.rows c.cols (some (⟨false, [5, 5], .float64, .input 0 false⟩ : Arr Content)) ∧
+    step c none (.adopt (some (.nd true [5, 5] .float64 false 0))) = (none, .error .valueError) := by
   refine ⟨?_, by rfl⟩
   rw [← invB_iff]; decide
 
